@@ -65,8 +65,14 @@ func genC03(seed uint64, tier string) *plan.Plan {
 		switch {
 		case len(tmpls) == 0 || x < 2:
 			t := genTemplate(r, doms[r.IntN(2)], uint16(256+r.IntN(3)), o)
-			b := t.templateMsg(hdr())
 			how := "template"
+			if len(tmpls) > 0 && r.IntN(3) == 0 {
+				// a redefinition that differs from a template in force in one position only
+				if nt, ok := nearVariant(r, tmpls[r.IntN(len(tmpls))], o); ok {
+					t = nt
+				}
+			}
+			b := t.templateMsg(hdr())
 			if r.IntN(5) == 0 {
 				b, how = mutate(r, b, earlier)
 				how = "template+" + how
